@@ -173,6 +173,10 @@ def main(tier):
                       (f"xs=[]; {q}{{xs}}{{xs}}{{ {{}} }}{{ {{}} }}{q}", "[][]{}{}", "", None)]
         progs += [("`a{% if 1 { x = `b{1}` } %}c{x}`", "acb1", "", None), ("`a{% if 1 { x = `b{1}` }; 5 %}c`", "a5c", "", None),
                   ("`{% if 0 { 1 } %}|{% if 1 { y = `{2}` } %}|{y}`", "||2", "", None), ("`<{% i=0; while i<2 { i=i+1; z=`{i}` } %}>{z}`", "<>2", "", None),
+                  # break / continue out of a hole of a template inside the loop: the hole is closed on the way out, however often
+                  ("i=0; while i<25 { i=i+1; `{% if i>0 { continue } %}` }; `{i}|{% if 1 { 2 } %}|`", "25||", "", None),
+                  ("i=0; s=''; while i<30 { i=i+1; s=`{s}{% if i%2==0 { continue }; i %}` }; s", "1357911131517192123252729", "", None),
+                  ("i=0; while i<40 { i=i+1; `{ `{% if i>22 { break } %}` }` }; `<{i}>`", "<23>", "", None),
                   ("`{% if 1 { `{1}` } %}{% if 1 { 2 } %}`", "", "", None), ("`{ `{ `{1}` }` }{% if 1 { 3 } %}`", "1", "", None)]
         lines = [f"runseq L100000 - {hx(src)}" + (f" {hx(check[2:])}" if check else "") for src, val, check, we in progs]
         out = run.go_only("templates", lines, go_timeout=300)
